@@ -4,51 +4,25 @@ package rotation
 
 import (
 	"context"
-	"crypto/rand"
-	"crypto/x509"
-	"crypto/x509/pkix"
-	"math/big"
 	"time"
 
 	"github.com/hashicorp/nodeenrollment"
 	"github.com/hashicorp/nodeenrollment/registration"
 	"github.com/hashicorp/nodeenrollment/types"
 	"github.com/hashicorp/nodeenrollment/zzverif/vf"
+	"github.com/hashicorp/nodeenrollment/zzverif/vfs"
+	"google.golang.org/protobuf/proto"
 	"google.golang.org/protobuf/types/known/structpb"
 	"google.golang.org/protobuf/types/known/timestamppb"
 )
 
-func init() { VfHarnesses["VerifC10Rotate"] = VerifC10Rotate }
-
-func vfStoreRoots(ctx context.Context, st *vfStorage, t0 time.Time) {
-	mk := func(id string, k int) *types.RootCertificate {
-		tmpl := &x509.Certificate{SubjectKeyId: vf.Pkix(k), Subject: pkix.Name{CommonName: "root"}, SerialNumber: big.NewInt(1),
-			NotBefore: t0.Add(-time.Hour), NotAfter: t0.Add(time.Hour), IsCA: true, BasicConstraintsValid: true}
-		priv, _ := x509.ParsePKCS8PrivateKey(vf.Pkcs8(k))
-		pub, _ := x509.ParsePKIXPublicKey(vf.Pkix(k))
-		der, err := x509.CreateCertificate(rand.Reader, tmpl, tmpl, pub, priv)
-		if err != nil {
-			panic(err)
-		}
-		return &types.RootCertificate{Id: id, PublicKeyPkix: vf.Pkix(k), PrivateKeyPkcs8: vf.Pkcs8(k), PrivateKeyType: types.KEYTYPE_ED25519,
-			CertificateDer: der, NotBefore: timestamppb.New(tmpl.NotBefore), NotAfter: timestamppb.New(tmpl.NotAfter)}
-	}
-	if err := (&types.RootCertificates{Id: nodeenrollment.RootsMessageId, Current: mk("current", 0), Next: mk("next", 1)}).Store(ctx, st); err != nil {
-		panic(err)
-	}
+func init() {
+	VfHarnesses["VerifC10Rotate"] = VerifC10Rotate
+	VfHarnesses["VerifC10Adversary"] = VerifC10Adversary
 }
 
-func (s *vfStorage) count(kind int) int {
-	n := 0
-	for _, e := range s.entries {
-		if e.kind == kind {
-			n++
-		}
-	}
-	return n
-}
+func vfStoreRoots(ctx context.Context, st *vfs.Storage, t0 time.Time) { vfs.StoreRoots(ctx, st, t0) }
 
-// vfEnroll runs the library's own honest node-led enrollment end to end (this is the C04 flow).
 var vfDeadline time.Time
 
 // vfOK: every honest step must succeed, provided the clock stayed inside the scenario budget.
@@ -58,8 +32,9 @@ func vfOK(step string, err error) {
 	vf.Assume(err == nil)
 }
 
-func vfEnroll(ctx context.Context, server *vfStorage, state *structpb.Struct) *types.NodeCredentials {
-	nodeSt := &vfStorage{}
+// vfEnroll runs the library's own honest node-led enrollment end to end (this is the C04 flow).
+func vfEnroll(ctx context.Context, server *vfs.Storage, state *structpb.Struct) *types.NodeCredentials {
+	nodeSt := &vfs.Storage{}
 	creds, err := types.NewNodeCredentials(ctx, nodeSt)
 	vfOK("new-node-credentials", err)
 	req, err := creds.CreateFetchNodeCredentialsRequest(ctx)
@@ -73,20 +48,19 @@ func vfEnroll(ctx context.Context, server *vfStorage, state *structpb.Struct) *t
 	return creds
 }
 
-// C10: a rotation request is honoured only if its payload was encrypted under the shared key of the
-// node it names; everything else registers nothing.
+// C10 (honest histories): two complete honest enrollments from the library's own code, then a rotation for node A
+// whose payload was encrypted under A's or B's shared key; a replay of the same payload afterwards.
 func VerifC10Rotate() {
 	ctx := context.Background()
-	st := &vfStorage{}
+	st := &vfs.Storage{}
 	t0 := vf.Now()
 	vfDeadline = t0.Add(time.Second)
 	vfStoreRoots(ctx, st, t0)
-	nodeA := vfEnroll(ctx, st, nil)
+	nodeA := vfEnroll(ctx, st, vfs.State("state-of-A"))
 	nodeB := vfEnroll(ctx, st, nil)
-	vf.Assert("two-nodes-enrolled", st.count(1) == 2)
+	vf.Assert("two-nodes-enrolled", st.Count(vfs.KindNode) == 2)
 
-	// node A wants to rotate: new credentials, fetch request for them, encrypted under SOME node's shared key
-	newCreds, err := types.NewNodeCredentials(ctx, &vfStorage{})
+	newCreds, err := types.NewNodeCredentials(ctx, &vfs.Storage{})
 	vfOK("new-credentials-for-rotation", err)
 	fetchReq, err := newCreds.CreateFetchNodeCredentialsRequest(ctx)
 	vfOK("fetch-request-for-rotation", err)
@@ -97,27 +71,168 @@ func VerifC10Rotate() {
 	}
 	payload, err := nodeenrollment.EncryptMessage(ctx, fetchReq, src)
 	vfOK("encrypt-payload", err)
-	before := st.count(1)
+	snap := st.Snapshot()
 	resp, err := RotateNodeCredentials(ctx, st, &types.RotateNodeCredentialsRequest{
 		CertificatePublicKeyPkix: nodeA.CertificatePublicKeyPkix, EncryptedFetchNodeCredentialsRequest: payload})
 	vf.Assume(vf.TimeLE(vf.Now(), t0.Add(time.Second)))
 	if err == nil && resp != nil {
 		vf.Reach("rotated")
 		vf.Assert("honoured-only-under-the-named-nodes-key", useOwnKey)
-		vf.Assert("one-new-record", st.count(1) == before+1)
-		// the reply opens under A's current shared key, the credentials inside under the new key
+		vf.Assert("one-new-record", st.Count(vfs.KindNode) == 3)
+		newId, _ := nodeenrollment.KeyIdFromPkix(newCreds.CertificatePublicKeyPkix)
+		newRec, lerr := types.LoadNodeInformation(ctx, st, newId)
+		vf.Assert("new-key-registered", lerr == nil)
+		if lerr == nil {
+			vf.Assert("state-carried-over", vfs.StateValue(newRec.State) == "state-of-A")
+		}
 		inner := new(types.FetchNodeCredentialsResponse)
 		vf.Assert("reply-opens-with-old-key", nodeenrollment.DecryptMessage(ctx, resp.EncryptedFetchNodeCredentialsResponse, nodeA, inner) == nil)
 		vf.Assert("reply-closed-to-other-node", nodeenrollment.DecryptMessage(ctx, resp.EncryptedFetchNodeCredentialsResponse, nodeB, new(types.FetchNodeCredentialsResponse)) != nil)
-		_, herr := newCreds.HandleFetchNodeCredentialsResponse(ctx, &vfStorage{}, inner)
+		_, herr := newCreds.HandleFetchNodeCredentialsResponse(ctx, &vfs.Storage{}, inner)
 		vf.Assert("new-credentials-usable", herr == nil)
-		// replay of the same payload is refused
 		_, rerr := RotateNodeCredentials(ctx, st, &types.RotateNodeCredentialsRequest{
 			CertificatePublicKeyPkix: nodeA.CertificatePublicKeyPkix, EncryptedFetchNodeCredentialsRequest: payload})
 		vf.Assert("replay-refused", rerr != nil)
+		vf.Assert("replay-registers-nothing", st.Count(vfs.KindNode) == 3)
 	} else {
 		vf.Reach("refused")
 		vf.Assert("own-key-request-is-honoured", vf.Not(useOwnKey))
-		vf.Assert("refusal-registers-nothing", st.count(1) == before)
+		vf.Assert("refusal-registers-nothing-and-changes-nothing", st.KindSameAs(vfs.KindNode, snap))
+	}
+}
+
+// ---- inductive-step form: arbitrary stored records, arbitrary request ----
+
+type vfParty struct {
+	cert, nodePriv, serverPriv int // universe keys: certificate key, node-side and server-side X25519 keys
+}
+
+func (p vfParty) record(nodeId, state string) *types.NodeInformation {
+	id, _ := nodeenrollment.KeyIdFromPkix(vf.Pkix(p.cert))
+	return &types.NodeInformation{Id: id, NodeId: nodeId, CertificatePublicKeyPkix: vf.Pkix(p.cert), CertificatePublicKeyType: types.KEYTYPE_ED25519,
+		EncryptionPublicKeyBytes: vf.X25519Pub(p.nodePriv), EncryptionPublicKeyType: types.KEYTYPE_X25519, RegistrationNonce: []byte("old-registration-nonce-of-32-byt"),
+		ServerEncryptionPrivateKeyBytes: vf.X25519Priv(p.serverPriv), ServerEncryptionPrivateKeyType: types.KEYTYPE_X25519, State: vfs.State(state)}
+}
+
+// creds is the node-side view of the same key agreement.
+func (p vfParty) creds() *types.NodeCredentials {
+	return &types.NodeCredentials{CertificatePublicKeyPkix: vf.Pkix(p.cert), EncryptionPrivateKeyBytes: vf.X25519Priv(p.nodePriv), EncryptionPrivateKeyType: types.KEYTYPE_X25519,
+		ServerEncryptionPublicKeyBytes: vf.X25519Pub(p.serverPriv), ServerEncryptionPublicKeyType: types.KEYTYPE_X25519}
+}
+
+// C10 (adversarial step): the server stores, under node ID "n1", record R1 (optionally remembering a previous key
+// pair) and record R2, in either order, and under "n2" another node's record M. An arbitrary rotation request
+// arrives: it names any certificate key and optionally the node ID; its payload is a fetch request encrypted under
+// R1's current key, R1's previous key, R2's key, M's key or an unrelated key; the inner request asks for a fresh or
+// an already registered key, with a nonce of any length, well signed or not.
+func VerifC10Adversary() {
+	ctx := context.Background()
+	inner := &vfs.Storage{}
+	t0 := vf.Now()
+	vfs.StoreRoots(ctx, inner, t0)
+	r1, r1prev, r2, m, stranger := vfParty{2, 0, 10}, vfParty{6, 3, 13}, vfParty{3, 1, 11}, vfParty{4, 2, 12}, vfParty{2, 4, 10}
+	rec1, rec2, recM := r1.record("n1", "state-1"), r2.record("n1", "state-2"), m.record("n2", "state-m")
+	hasPrev := vf.Bool("R1-remembers-a-previous-key")
+	if hasPrev {
+		if err := rec1.SetPreviousEncryptionKey(r1prev.record("n1", "")); err != nil {
+			panic(err)
+		}
+	}
+	order := []*types.NodeInformation{rec1, rec2}
+	r2first := vf.Bool("R2-stored-before-R1")
+	if r2first {
+		order = []*types.NodeInformation{rec2, rec1}
+	}
+	for _, r := range append(order, recM) {
+		if err := r.Store(ctx, inner); err != nil {
+			panic(err)
+		}
+	}
+	loader := vf.Bool("storage-supports-node-id-lookup")
+	var st nodeenrollment.Storage = inner
+	if loader {
+		st = &vfs.NodeIdStorage{Storage: inner}
+	}
+
+	// the inner fetch request
+	newKey := vf.Int("new-certificate-key", 3, 5) // 3 is R2's key (already registered), 5 is fresh
+	nonce := vf.Bytes("inner-nonce", 40)
+	vf.Assume(len(nonce) >= 1)
+	sigKey := vf.Int("inner-signature-key", 3, 5)
+	info := &types.FetchNodeCredentialsInfo{CertificatePublicKeyPkix: vf.Pkix(newKey), CertificatePublicKeyType: types.KEYTYPE_ED25519,
+		Nonce: nonce, EncryptionPublicKeyBytes: vf.X25519Pub(5), EncryptionPublicKeyType: types.KEYTYPE_X25519,
+		NotBefore: timestamppb.New(t0.Add(-time.Hour)), NotAfter: timestamppb.New(t0.Add(time.Hour))}
+	bundle, err := proto.Marshal(info)
+	if err != nil {
+		panic(err)
+	}
+	fetchReq := &types.FetchNodeCredentialsRequest{Bundle: bundle, BundleSignature: vf.SigBy(sigKey, bundle)}
+
+	// who encrypted the payload
+	source := vf.Int("payload-key", 0, 4)
+	sealer := []vfParty{r1, r1prev, r2, m, stranger}[source]
+	payload, err := nodeenrollment.EncryptMessage(ctx, fetchReq, sealer.creds())
+	if err != nil {
+		panic(err)
+	}
+	// how the request identifies the node
+	named := vf.Int("named-certificate-key", 2, 5) // 5: no such record
+	byNodeId := vf.Bool("request-names-node-id")
+	req := &types.RotateNodeCredentialsRequest{CertificatePublicKeyPkix: vf.Pkix(named), EncryptedFetchNodeCredentialsRequest: payload}
+	if byNodeId {
+		req.NodeId = "n1"
+	}
+	snap := inner.Snapshot()
+	resp, err := RotateNodeCredentials(ctx, st, req)
+	vf.Assume(vf.TimeLE(vf.Now(), t0.Add(time.Second)))
+
+	// the stored record (if any) that the payload authenticates against, within the identified node's records
+	useSet := byNodeId && loader
+	inScope := func(p vfParty) bool {
+		if useSet {
+			return p.cert == 2 || p.cert == 3
+		}
+		return p.cert == named
+	}
+	var auth *vfParty
+	switch {
+	case source == 0 && inScope(r1):
+		auth = &r1
+	case source == 1 && hasPrev && inScope(r1):
+		auth = &r1
+	case source == 2 && inScope(r2):
+		auth = &r2
+	case source == 3 && inScope(m):
+		auth = &m
+	}
+	innerOK := vf.And(vf.And(sigKey == newKey, len(nonce) == nodeenrollment.NonceSize), newKey == 5)
+	if err == nil && resp != nil {
+		vf.Reach("rotated")
+		vf.Assert("payload-authenticated-by-a-record-of-the-identified-node", auth != nil)
+		vf.Assert("inner-request-valid-fresh-key-and-plain-nonce", innerOK)
+		newId, _ := nodeenrollment.KeyIdFromPkix(vf.Pkix(newKey))
+		newRec, lerr := types.LoadNodeInformation(ctx, inner, newId)
+		vf.Assert("new-key-registered", lerr == nil)
+		if auth != nil && lerr == nil {
+			want := map[int]string{2: "state-1", 3: "state-2", 4: "state-m"}[auth.cert]
+			vf.Assert("state-carried-over-from-the-authenticating-record", vfs.StateValue(newRec.State) == want)
+			out := new(types.FetchNodeCredentialsResponse)
+			vf.Assert("reply-opens-under-the-authenticating-records-current-key", nodeenrollment.DecryptMessage(ctx, resp.EncryptedFetchNodeCredentialsResponse, auth.creds(), out) == nil)
+			for _, other := range []vfParty{r1, r2, m, r1prev} {
+				if other.cert != auth.cert {
+					vf.Assert("reply-closed-to-every-other-key", nodeenrollment.DecryptMessage(ctx, resp.EncryptedFetchNodeCredentialsResponse, other.creds(), new(types.FetchNodeCredentialsResponse)) != nil)
+				}
+			}
+			newNode := &types.NodeCredentials{CertificatePublicKeyPkix: vf.Pkix(newKey), EncryptionPrivateKeyBytes: vf.X25519Priv(5), EncryptionPrivateKeyType: types.KEYTYPE_X25519,
+				ServerEncryptionPublicKeyBytes: out.ServerEncryptionPublicKeyBytes, ServerEncryptionPublicKeyType: out.ServerEncryptionPublicKeyType}
+			vf.Assert("credentials-open-under-the-new-key", nodeenrollment.DecryptMessage(ctx, out.EncryptedNodeCredentials, newNode, new(types.NodeCredentials)) == nil)
+			vf.Assert("credentials-closed-to-the-old-key", nodeenrollment.DecryptMessage(ctx, out.EncryptedNodeCredentials, auth.creds(), new(types.NodeCredentials)) != nil)
+		}
+		vf.Assert("exactly-one-new-record", inner.Count(vfs.KindNode) == 4)
+	} else {
+		vf.Reach("refused")
+		vf.Assert("refusal-is-an-error", err != nil)
+		vf.Assert("authenticated-valid-rotation-is-honoured", vf.Not(vf.And(auth != nil, innerOK)))
+		vf.Assert("refusal-registers-nothing-and-changes-nothing", inner.KindSameAs(vfs.KindNode, snap))
 	}
 }
